@@ -77,7 +77,7 @@ class Ideal:
 class C09(F.PropCheck):
     pid = 'C09'; gen_groups = ['RsConsts']; prop_file = 'Properties_C09'
     IN = {'CFG': 0, 'SET': 1, 'CB': 2, 'POKE': 3}
-    OUT = {0: 'ST'}
+    OUT = {0: 'ST', 1: 'REPORT'}
     quick_cases = 1500; thorough_cases = 60000
     trusted_extra = ['C09 driver harness/drv/c09.c: real supla_esp_gpio_init, rs_timer_cb, move_position, calibrate, get_current_position/_tilt, '
                      'set_relay; output pins written directly (SET), callback called directly at scripted times (own os_timer disarmed)',
@@ -92,7 +92,8 @@ class C09(F.PropCheck):
             '10..30 ms jitter, 1..250 ms random, and mixed; non-trivial = position or tilt changed at least once; distinct by sha256 of the event text')
 
     def build_impl(self):
-        return F.build_c('c09', os.path.join(F.VERIF, 'harness', 'drv', 'c09.c'))
+        return F.build_c('c09', os.path.join(F.VERIF, 'harness', 'drv', 'c09.c'), exclude=('supla_esp_rs_fb',),
+                         extra_srcs=[os.path.join(F.VERIF, 'harness', 'wrap', 'c09_rsfb_wrap.c')])
 
     # ---------------- generators
     def gen_cfg(self, rng, tier):
@@ -174,7 +175,29 @@ class C09(F.PropCheck):
                 if rng.random() < 0.05:
                     evs.append(('POKE', [rng.choice([0, 100, 10100, rng.randrange(100, 10101)]), rng.choice([0, 100, 10100, rng.randrange(100, 10101)])], b''))
                     tags.append('poke')
+            if rng.random() < 0.12:
+                # place the wrap of the 32-bit microsecond counter inside a late callback interval of a run (report block / 10-minute
+                # rule / elapsed-time arithmetic must be wrap-safe)
+                cbs = [j for j, e in enumerate(evs) if e[0] == 'CB']
+                j = rng.choice(cbs[len(cbs) // 8:]) if len(cbs) > 8 else cbs[-1]
+                late = rng.choice([60000, 100000, 150000, 250000, rng.randrange(30000, 250001)])
+                evs[j] = ('CB', [late], b'')
+                before = cfg[8] + sum(e[1][0] for e in evs[1:j] if e[0] == 'CB')
+                cfg[0] = (2**32 - (before + rng.randrange(1, late))) % 2**32
+                if cfg[0] == 0: cfg[0] = 1
+                tags = [t for t in tags if t != 'boot-near-wrap'] + ['wrap-in-late-callback']
             cases.append(F.Case('%s%d' % (tier[0], i), evs, tags))
+        # the 10-minute rule across the counter wrap: motor energised for more than 600 s, coarse callbacks
+        for i in range(max(2, n // 60)):
+            fo = rng.choice([0, 0, 600000, 400000])
+            cfg = [1, fo, fo, 0, 0, rng.choice([-1, 100]), 0 if fo == 0 else rng.choice([0, 5000]), 0, 250000]
+            d = rng.choice([1, 2])
+            evs = [('CFG', cfg, b''), ('CB', [10000], b''), ('SET', [d], b'')]
+            dts = [rng.choice([250000, 250000, 200000, 249999]) for _ in range(2700)]
+            wrap_at = rng.randrange(1_000_000, 598_000_000)
+            cfg[0] = (2**32 - wrap_at) % 2**32
+            evs += [('CB', [dt], b'') for dt in dts]
+            cases.append(F.Case('%sT%d' % (tier[0], i), evs, ['ten-minute-rule', 'wrap-during-run', 'type0']))
         return cases
 
     # ---------------- monitor: the property text evaluated on the implementation trace (no Coq model involved)
@@ -183,22 +206,36 @@ class C09(F.PropCheck):
         v = []
         cfg = None; idl = None; d = 0
         sts = [o for o in outs if o[0] == 'ST']; si = 0
-        pos = tilt = None; wf = True
-        seg = None   # (dir, p0raw, t0raw, elapsed_us)
+        for o in outs:
+            if o[0] == 'REPORT' and len(o[2]) >= 2:
+                rp_ = o[2][0] - 256 if o[2][0] > 127 else o[2][0]; rt_ = o[2][1] - 256 if o[2][1] > 127 else o[2][1]
+                if not (rp_ == -1 or 0 <= rp_ <= 100): v.append('value handed to the server has position %d (not -1 or 0..100)' % rp_)
+                if not (rt_ == -1 or 0 <= rt_ <= 100): v.append('value handed to the server has tilt %d (not -1 or 0..100)' % rt_)
+        pos = tilt = None; wf = True; in_scope = False; blocked = False; last_carry = (0, 0)
+        seg = None   # [dir, p0raw, t0raw, elapsed_us, max interval, min interval]
+        def state_ok(p, t):
+            if not ((p == 0 or known(p)) and (t in (0, -1) or known(t))): return False
+            # "tilting only when fully closed": a stored tilt other than 0 % away from the closed position is not a
+            # state the module produces itself (stale value of another tilt mode)
+            if cfg is not None and cfg[4] == 3 and idl.supported() and known(p) and p < 10100 and known(t) and t != 100: return False
+            return True
         for (k, a, _) in case.evs:
             if k == 'CFG':
-                cfg = a; idl = Ideal(a); pos = a[6]; tilt = a[7] if idl.supported() else -1; d = 0; seg = None
-                wf = (pos == 0 or known(pos)) and (tilt in (0, -1) or known(tilt))
-                # outside the quantifier of the property: times below 0.5 s / above 10 min, tilt >= full for the in-place modes
-                self_ok = all(500 <= x <= 600000 for x in (a[1], a[2])) and (not idl.supported() or 500 <= a[3] <= 600000)
-                if idl.supported() and a[4] in (1, 3) and a[3] >= min(a[1], a[2]): self_ok = False
-                if a[4] == 0 and a[3] != 0: self_ok = False
-                in_scope = self_ok
+                cfg = a; idl = Ideal(a); pos = a[6]; tilt = a[7] if idl.supported() else -1; d = 0; seg = None; blocked = False
+                wf = state_ok(pos, tilt)
+                # the quantifier of the property: times 0.5 s .. 10 min; tilting shorter than the travel for the modes that tilt in place;
+                # a roller shutter has no tilting time
+                in_scope = all(500 <= x <= 600000 for x in (a[1], a[2])) and (not idl.supported() or 500 <= a[3] <= 600000)
+                if idl.supported() and a[4] in (1, 3) and a[3] > min(a[1], a[2]) - 500: in_scope = False
+                if a[4] == 0 and a[3] != 0: in_scope = False
             elif k == 'SET':
-                d = a[0]; seg = None
+                # a run that starts with the carry of an earlier run in the same direction still stored (outputs switched off and on
+                # again between two callbacks, impossible through set_relay because of the 1 s start delay) is not "t ms from a known position"
+                stale = (a[0] == 2 and last_carry[0] != 0 and d != 2) or (a[0] == 1 and last_carry[1] != 0 and d != 1)
+                d = a[0]; seg = None; blocked = stale
             elif k == 'POKE':
-                pos, tilt = a[0], a[1]; seg = None
-                if not ((pos == 0 or known(pos)) and (tilt in (0, -1) or known(tilt))): wf = False
+                pos, tilt = a[0], a[1]; seg = None; blocked = True    # the carry of the running motor is not a run "from a known position"
+                if not state_ok(pos, tilt): wf = False
             elif k == 'CB':
                 if si >= len(sts) or cfg is None: break
                 o = sts[si][1]; si += 1
@@ -215,31 +252,35 @@ class C09(F.PropCheck):
                     if d == 2 and npos > pos: v.append('%s: position rose %d -> %d while moving up' % (where, pos, npos))
                     if d == 1 and npos < pos: v.append('%s: position fell %d -> %d while moving down' % (where, pos, npos))
                     if known(tilt) and known(ntilt) and idl.supported():
-                        if d == 2 and ntilt > tilt: v.append('%s: tilt rose %d -> %d while moving up' % (where, tilt, ntilt))
-                        if d == 1 and ntilt < tilt: v.append('%s: tilt fell %d -> %d while moving down' % (where, tilt, ntilt))
+                        if d == 2 and ntilt > tilt: v.append('%s: tilt rose %d -> %d while moving up [mode=%d]' % (where, tilt, ntilt, cfg[4]))
+                        if d == 1 and ntilt < tilt: v.append('%s: tilt fell %d -> %d while moving down [mode=%d]' % (where, tilt, ntilt, cfg[4]))
                 # --- accounting
-                if wf and in_scope and d in (1, 2) and known(pos):
+                if wf and in_scope and not blocked and d in (1, 2) and known(pos):
                     if seg is None or seg[0] != d:
                         t0 = (tilt - 100) if (idl.supported() and known(tilt)) else 0
-                        seg = [d, pos - 100, t0, 0]
-                    seg[3] += a[0]
+                        seg = [d, pos - 100, t0, 0, 0, 10**9]
+                    seg[3] += a[0]; seg[4] = max(seg[4], a[0]); seg[5] = min(seg[5], a[0])
                     up = (d == 2)
                     ip, it = idl.after(seg[1], seg[2], up, seg[3])
                     full = (cfg[1] if up else cfg[2]) * 1000
                     Tp = full - cfg[3] * 1000 if (idl.supported() and cfg[4] in (1, 3)) else full
-                    tolp = 100 + Fraction(10000 * 30000, Tp)
-                    if known(npos) and abs((npos - 100) - ip) > tolp:
-                        v.append('%s: after %d us %s from raw position %d the stored position is %d, ideal %.1f (tolerance %.1f)' %
-                                 (where, seg[3], 'up' if up else 'down', seg[1], npos - 100, float(ip), float(tolp)))
-                    if it is not None and known(ntilt):
-                        tolt = 100 + Fraction(10000 * 30000, cfg[3] * 1000)
-                        if abs((ntilt - 100) - it) > tolt:
-                            v.append('%s: after %d us %s from raw tilt %d the stored tilt is %d, ideal %.1f (tolerance %.1f)' %
-                                     (where, seg[3], 'up' if up else 'down', seg[2], ntilt - 100, float(it), float(tolt)))
+                    lat = 30000
+                    def verdict(what, stored, ideal, T, raw0):
+                        tol = 100 + Fraction(10000 * lat, T)
+                        err = abs(stored - ideal)
+                        if err <= tol: return
+                        # classification data for finding_key: would the deviation fit the travel of the largest callback interval of the run
+                        # (the callback that spans the hand-over between tilting and moving treats only one of them)?
+                        lag = err <= 100 + Fraction(10000 * max(lat, seg[4]), T)
+                        slow = idl.supported() and cfg[3] * 1000 > 10000 * seg[5]   # one tilt unit (0.01 %) takes longer than the shortest interval
+                        v.append('%s: after %d us %s from raw %s %d the stored %s is %d, ideal %.1f (tolerance %.1f) [mode=%d maxdt=%d handover_lag=%d slow_tilt=%d]' %
+                                 (where, seg[3], 'up' if up else 'down', what, raw0, what, stored, float(ideal), float(tol), cfg[4], seg[4], int(lag), int(slow)))
+                    if known(npos): verdict('position', npos - 100, ip, Tp, seg[1])
+                    if it is not None and known(ntilt): verdict('tilt', ntilt - 100, it, cfg[3] * 1000, seg[2])
                     if not known(npos): seg = None
                 else:
                     seg = None
-                pos, tilt = npos, ntilt
+                pos, tilt = npos, ntilt; last_carry = (ut, dtm)
                 if nd != d: d = nd; seg = None
                 if len(v) >= 3: break
         return v[:3]
@@ -249,6 +290,22 @@ class C09(F.PropCheck):
         return len({(s[0], s[1]) for s in sts}) > 1
 
     def finding_key(self, case, what):
+        """classes of the known deviations of the facade-blind accounting (see docs/reports/C09.md)"""
+        import re
+        m = re.search(r'\[mode=(\d)(?: maxdt=(\d+) handover_lag=(\d) slow_tilt=(\d))?\]', what)
+        if not m: return None
+        mode = int(m.group(1))
+        if m.group(2) is None:
+            # direction alarm on the tilt of a blind: only the starved-tilt class produces it (mode 1/3, slow tilting)
+            cfg = case.evs[0][1] if case.evs and case.evs[0][0] == 'CFG' else None
+            if cfg and mode in (1, 3):
+                mind = min([e[1][0] for e in case.evs if e[0] == 'CB'] or [0])
+                if cfg[3] * 1000 > 10000 * mind: return 'fb-slow-tilt-starved'
+            return None
+        lag, slow = int(m.group(3)), int(m.group(4))
+        if mode == 2 and 'the stored tilt' in what: return 'fb-mode2-tilt-shares-position-carry'
+        if mode in (1, 3) and slow: return 'fb-slow-tilt-starved'
+        if mode in (1, 3) and lag and int(m.group(2)) > 30000: return 'fb-handover-lag'
         return None
 
 CHECK = C09()
